@@ -275,7 +275,89 @@ class Mini:
                 raise
             except Exception as exc:     # ValueError of str.index, ...
                 raise Raises(f"{txt(e)} raises {type(exc).__name__}")
+        if isinstance(e, ast.Call) and all(k.arg for k in e.keywords) \
+                and not any(isinstance(a, ast.Starred) for a in e.args):
+            f = self.ev(e.func)
+            if isinstance(f, DefValue):
+                return f(*[self.ev(a) for a in e.args],
+                         **{k.arg: self.ev(k.value) for k in e.keywords})
         raise Unknown(txt(e))
+
+
+class DefValue:
+    """a function of the repository as a value of the evaluator: calling it
+    interprets the definition (assignments to plain names, if, return,
+    raise, expression statements; early returns allowed)"""
+
+    def __init__(self, fd, env=None):
+        self.fd = fd
+        self.env = env if env is not None else {}
+
+    def __call__(self, *args, **kwargs):
+        a = self.fd.args
+        if a.vararg or a.kwarg or a.posonlyargs:
+            raise Unknown(f"{self.fd.name} (signature)")
+        params = [x.arg for x in a.args]
+        if params and params[0] in ("self", "cls") and isinstance(
+                getattr(self.fd, "parent", None), ast.ClassDef) \
+                and not any(txt(d) == "staticmethod"
+                            for d in self.fd.decorator_list):
+            raise Unknown(f"{self.fd.name} (method)")
+        env = dict(self.env)
+        loc = dict(zip(params, args))
+        if len(args) > len(params):
+            raise Raises(f"{self.fd.name}() raises TypeError")
+        for k, v in kwargs.items():
+            if k in loc or k not in params + [x.arg for x in a.kwonlyargs]:
+                raise Raises(f"{self.fd.name}() raises TypeError")
+            loc[k] = v
+        for prm, d in zip(a.args[len(a.args) - len(a.defaults):],
+                          a.defaults):
+            if prm.arg not in loc:
+                loc[prm.arg] = Mini(env).ev(d)
+        for prm, d in zip(a.kwonlyargs, a.kw_defaults):
+            if d is not None and prm.arg not in loc:
+                loc[prm.arg] = Mini(env).ev(d)
+        if set(loc) != set(params + [x.arg for x in a.kwonlyargs]):
+            raise Raises(f"{self.fd.name}() raises TypeError")
+        env.update(loc)
+
+        def block(stmts):
+            for st in stmts:
+                if isinstance(st, ast.If):
+                    r = block(st.body if Mini(env).ev(st.test)
+                              else st.orelse)
+                    if r is not None:
+                        return r
+                elif isinstance(st, ast.Return):
+                    return ("ret", None if st.value is None
+                            else Mini(env).ev(st.value))
+                elif isinstance(st, ast.Raise):
+                    raise Raises(f"{self.fd.name}() raises "
+                                 f"{txt(st.exc)[:40] if st.exc else ''}")
+                elif isinstance(st, ast.Assign) and len(
+                        st.targets) == 1 and isinstance(
+                        st.targets[0], ast.Name):
+                    env[st.targets[0].id] = Mini(env).ev(st.value)
+                elif isinstance(st, ast.Pass) or (
+                        isinstance(st, ast.Expr) and isinstance(
+                            st.value, ast.Constant)):
+                    continue
+                else:
+                    raise Unknown(f"{self.fd.name}: `{txt(st)[:50]}`")
+            return None
+        r = block(self.fd.body)
+        return None if r is None else r[1]
+
+
+def module_functions(repo, rel):
+    """name -> DefValue of the module-level functions of a file (they can
+    call each other)"""
+    env = {}
+    for st in repo.tree(rel).body:
+        if isinstance(st, ast.FunctionDef):
+            env[st.name] = DefValue(st, env)
+    return env
 
 
 def fold(expr, env, what):
@@ -587,28 +669,83 @@ class _Renamer(ast.NodeTransformer):
     visit_Lambda = visit_FunctionDef
 
 
-def inline_module_helpers(repo, rel, func, depth=2):
-    """copy of `func` in which calls of simple module-level functions of the
-    same file (single trailing ``return``, plain parameters) that occur in
-    an expression / assignment / return statement are replaced by the
-    helper's body (parameters bound by assignments, locals renamed
-    ``<name>_h<k>``) and its return expression"""
+def _eliminate_returns(stmts, retname):
+    """rewrite a helper body so that every ``return X`` becomes
+    ``retname = X`` and the statements after a returning ``if`` move into the
+    branch that falls through; -> (statements, always returns) or None when a
+    return sits inside a loop / try / with"""
+    out = []
+    for idx, st in enumerate(stmts):
+        if isinstance(st, ast.Return):
+            out.append(ast.copy_location(ast.Assign(
+                targets=[ast.Name(id=retname, ctx=ast.Store())],
+                value=st.value or ast.Constant(value=None)), st))
+            return out, True
+        has_ret = any(isinstance(x, ast.Return) for x in walk(st))
+        if not has_ret:
+            out.append(st)
+            continue
+        if not isinstance(st, ast.If):
+            return None
+        rb = _eliminate_returns(st.body, retname)
+        ro = _eliminate_returns(st.orelse, retname)
+        rr = _eliminate_returns(stmts[idx + 1:], retname)
+        if rb is None or ro is None or rr is None:
+            return None
+        body, b_ret = rb
+        orelse, o_ret = ro
+        rest, r_ret = rr
+        if not b_ret:
+            body = body + _copy.deepcopy(rest)
+        if not o_ret:
+            orelse = orelse + _copy.deepcopy(rest)
+        out.append(ast.copy_location(ast.If(
+            test=st.test, body=body or [ast.Pass()], orelse=orelse), st))
+        return out, (b_ret or r_ret) and (o_ret or r_ret)
+    return out, False
+
+
+def inline_module_helpers(repo, rel, func, depth=2, methods=False, keep=()):
+    """copy of `func` in which calls of helpers are replaced by the helper's
+    body and its result: module-level functions of the same file and – with
+    `methods` – private methods (``self._x`` / ``cls._x`` / ``Class._x``) of
+    the same class, except the names in `keep`.  Calls are expanded where
+    they occur in an expression / assignment / return statement or in the
+    test of an ``if``.  Helpers may return early (returns are eliminated);
+    parameters bound to plain names or used once are substituted, the others
+    bound by assignments; helper locals are renamed ``<name>_h<k>``."""
     new = _copy.deepcopy(func)
     counter = [0]
+    cls = getattr(func, "parent", None)
+    cls = cls if isinstance(cls, ast.ClassDef) else None
 
     def helper_of(call):
-        if not isinstance(call.func, ast.Name):
+        f = call.func
+        h, skip_self = None, False
+        if isinstance(f, ast.Name):
+            h = repo.func(rel, f.id, missing_ok=True)
+            if h is not None and not isinstance(h.parent, ast.Module):
+                h = None
+        elif methods and cls is not None and isinstance(
+                f, ast.Attribute) and isinstance(
+                f.value, ast.Name) and f.value.id in (
+                "self", "cls", cls.name) and f.attr.startswith("_") \
+                and not f.attr.startswith("__"):
+            for st in cls.body:
+                if isinstance(st, ast.FunctionDef) and st.name == f.attr:
+                    h = st
+            if h is not None:
+                decos = [txt(d) for d in h.decorator_list]
+                if any(d not in ("staticmethod", "classmethod")
+                       for d in decos):
+                    return None
+                skip_self = "staticmethod" not in decos
+        if h is None or h.name == func.name or h.name in keep:
             return None
-        h = repo.func(rel, call.func.id, missing_ok=True)
-        if h is None or h.name == func.name or not isinstance(
-                h.parent, ast.Module):
+        if isinstance(f, ast.Name) and h.decorator_list:
             return None
         a = h.args
-        if a.vararg or a.kwarg or a.posonlyargs or h.decorator_list:
-            return None
-        rets = [n for n in walk(h) if isinstance(n, ast.Return)]
-        if len(rets) != 1 or h.body[-1] is not rets[0] \
-                or rets[0].value is None:
+        if a.vararg or a.kwarg or a.posonlyargs:
             return None
         if any(isinstance(n, (ast.Yield, ast.YieldFrom, ast.Global,
                               ast.Nonlocal, ast.Await)) for n in walk(h)):
@@ -616,20 +753,25 @@ def inline_module_helpers(repo, rel, func, depth=2):
         if any(isinstance(s, ast.Starred) for s in call.args) or any(
                 k.arg is None for k in call.keywords):
             return None
-        return h
+        if not any(isinstance(n, ast.Return) and n.value is not None
+                   for n in walk(h)):
+            return None
+        return h, skip_self
 
-    def expand(call, h):
+    def expand(call, h, skip_self):
         counter[0] += 1
         tag = f"_h{counter[0]}"
-        params = [x.arg for x in h.args.args + h.args.kwonlyargs]
+        pos = h.args.args[1:] if skip_self else h.args.args
+        params = [x.arg for x in pos + h.args.kwonlyargs]
         bound = {}
-        for p, v in zip([x.arg for x in h.args.args], call.args):
+        for p, v in zip([x.arg for x in pos], call.args):
             bound[p] = v
+        if len(call.args) > len(pos):
+            return None
         for k in call.keywords:
             if k.arg not in params or k.arg in bound:
                 return None
             bound[k.arg] = k.value
-        pos = h.args.args
         for p, d in zip(pos[len(pos) - len(h.args.defaults):],
                         h.args.defaults):
             bound.setdefault(p.arg, d)
@@ -638,28 +780,76 @@ def inline_module_helpers(repo, rel, func, depth=2):
                 bound.setdefault(p.arg, d)
         if set(bound) != set(params):
             return None
-        locs = set(params)
-        for n in walk(h):
-            if isinstance(n, ast.Name) and isinstance(n.ctx, ast.Store):
-                locs.add(n.id)
-        ren = _Renamer({k: k + tag for k in locs})
-        body = [ast.Assign(targets=[ast.Name(id=p + tag, ctx=ast.Store())],
-                           value=_copy.deepcopy(bound[p])) for p in params]
         hb = _copy.deepcopy(h.body)
         doc = hb and isinstance(hb[0], ast.Expr) and isinstance(
             hb[0].value, ast.Constant) and isinstance(hb[0].value.value, str)
-        for st in hb[1 if doc else 0:-1]:
-            body.append(ren.visit(st))
-        ret = ren.visit(hb[-1]).value
-        return body, ret
+        hb = hb[1 if doc else 0:]
+        retname = "ret" + tag
+        single = len([n for n in walk(h) if isinstance(n, ast.Return)]) == 1 \
+            and isinstance(h.body[-1], ast.Return)
+        if single:
+            stmts, ret = hb[:-1], hb[-1].value
+        else:
+            r = _eliminate_returns(hb, retname)
+            if r is None:
+                return None
+            stmts, always = r
+            if not always:
+                stmts = [ast.Assign(
+                    targets=[ast.Name(id=retname, ctx=ast.Store())],
+                    value=ast.Constant(value=None))] + stmts
+            ret = ast.Name(id=retname, ctx=ast.Load())
+        holder = ast.Module(body=stmts + [ast.Expr(value=ret)],
+                            type_ignores=[])
+        stored, loads = set(), {}
+        for n in ast.walk(holder):
+            if isinstance(n, ast.Name):
+                if isinstance(n.ctx, ast.Store):
+                    stored.add(n.id)
+                else:
+                    loads[n.id] = loads.get(n.id, 0) + 1
+        locs = (stored | set(params)) - {retname}
+        direct = {}
+        pre = []
+        for prm in params:
+            v = bound[prm]
+            simple = isinstance(v, (ast.Name, ast.Constant))
+            if prm not in stored and (simple or loads.get(prm, 0) <= 1):
+                direct[prm] = v
+            else:
+                pre.append(ast.Assign(
+                    targets=[ast.Name(id=prm + tag, ctx=ast.Store())],
+                    value=_copy.deepcopy(v)))
+
+        class Sub(ast.NodeTransformer):
+            def visit_Name(self, node):
+                if node.id in direct and isinstance(node.ctx, ast.Load):
+                    return ast.copy_location(_copy.deepcopy(direct[node.id]),
+                                             node)
+                if node.id in locs:
+                    return ast.copy_location(ast.Name(
+                        id=node.id + tag, ctx=node.ctx), node)
+                return node
+
+            def visit_FunctionDef(self, node):
+                return node
+
+            visit_Lambda = visit_FunctionDef
+        holder = Sub().visit(holder)
+        return pre + holder.body[:-1], holder.body[-1].value
 
     def process(stmts, level):
         out = []
         for st in stmts:
             for fld, blk in _blocks(st):
                 blk[:] = process(blk, level)
+            part = None
             if isinstance(st, (ast.Expr, ast.Assign, ast.Return)) \
-                    and st.value is not None and level < depth:
+                    and st.value is not None:
+                part = "value"
+            elif isinstance(st, ast.If):
+                part = "test"
+            if part is not None and level < depth:
                 pre = []
 
                 class T(ast.NodeTransformer):
@@ -669,22 +859,30 @@ def inline_module_helpers(repo, rel, func, depth=2):
                     visit_ListComp = visit_SetComp = visit_DictComp = \
                         visit_GeneratorExp = visit_Lambda
 
+                    def visit_BoolOp(self, node):
+                        # only the first operand is evaluated for sure
+                        node.values[0] = self.visit(node.values[0])
+                        return node
+
+                    def visit_IfExp(self, node):
+                        node.test = self.visit(node.test)
+                        return node
+
                     def visit_Call(self, node):
                         self.generic_visit(node)
-                        h = helper_of(node)
-                        if h is None:
+                        hh = helper_of(node)
+                        if hh is None:
                             return node
-                        ex = expand(node, h)
+                        ex = expand(node, *hh)
                         if ex is None:
                             return node
                         body, ret = ex
                         pre.extend(process(body, level + 1))
                         return ast.copy_location(ret, node)
-                st.value = T().visit(st.value)
-                for p in pre:
-                    ast.copy_location(p, st)
-                    for x in ast.walk(p):
-                        if not hasattr(x, "lineno"):
+                setattr(st, part, T().visit(getattr(st, part)))
+                for p_ in pre:
+                    for x in ast.walk(p_):
+                        if not hasattr(x, "lineno") or True:
                             ast.copy_location(x, st)
                 out.extend(pre)
             out.append(st)
@@ -717,3 +915,42 @@ def run_straight(func, env, consts=None):
                 raise Unknown(txt(st)[:60])
         return None
     return block(func.body) or ("end", None)
+
+
+def basin_loop(func, what):
+    """the loop of `func` that walks the basins of the dataset, also when it
+    iterates a local bound to a filtering comprehension:
+    -> (loop, loop variable, base iterable expr, [(keep test, its variable)])
+    """
+    found = []
+    for n in walk(func):
+        if not (isinstance(n, ast.For) and isinstance(n.target, ast.Name)):
+            continue
+        it = n.iter
+        if isinstance(it, ast.Name):
+            vals = [a.value for a in walk(func) if isinstance(a, ast.Assign)
+                    and len(a.targets) == 1 and isinstance(
+                        a.targets[0], ast.Name)
+                    and a.targets[0].id == it.id]
+            if len(vals) != 1:
+                continue
+            it = vals[0]
+        keeps = []
+        while isinstance(it, ast.Call) and dotted(it.func) in (
+                "list", "tuple", "iter") and len(it.args) == 1 \
+                and isinstance(it.args[0], (ast.GeneratorExp, ast.ListComp)):
+            it = it.args[0]
+        if isinstance(it, (ast.GeneratorExp, ast.ListComp)):
+            if len(it.generators) != 1 or not isinstance(
+                    it.generators[0].target, ast.Name) or not isinstance(
+                    it.elt, ast.Name) or it.elt.id != \
+                    it.generators[0].target.id:
+                continue
+            g = it.generators[0]
+            keeps = [(c, g.target.id) for c in g.ifs]
+            it = g.iter
+        if "self.basins" in txt(it) or "self._basins" in txt(it):
+            found.append((n, n.target.id, it, keeps))
+    if len(found) != 1:
+        raise AnalysisError(f"{what}: basin loop lost")
+    return found[0]
